@@ -205,17 +205,18 @@ inductive Frame where
   | ok (fin : Bool) (opcode : Nat) (buffer : List UInt8) (rest : List UInt8)
 deriving Repr, DecidableEq
 
-/-- The payload loop `for (got = 0; got < len;) { chunk = min(len - got, recvChunk); buffer.resize(got + chunk);
-    if (read(buffer + got, chunk) != chunk) close; got += chunk; }` with `avail` bytes left before the end of
+/-- The payload loop `for (got = 0; got < len;) { step = got < recvChunk ? recvChunk : got; chunk = min(len - got, step);
+    buffer.resize(got + chunk); if (read(buffer + got, chunk) != chunk) close; got += chunk; }` with `avail` bytes left before the end of
     the stream.  Returns whether all `len` bytes arrived and the largest length ever passed to `resize`
     (the memory the frame made the library ask for).  The socket delivers the bytes in order, so on
     success the buffer is the next `len` bytes of the stream.  `fuel` = `len + 1` is never exhausted
-    (`C11.payload_loop_spec`). -/
+    (`C11.allocation_bounded_by_received`, `AslProofs.WebSocket.readPayload_spec`). -/
 def readPayload : Nat → Nat → Nat → Nat → Nat → Bool × Nat
   | 0, _, _, _, peak => (false, peak)
   | fuel + 1, len, got, avail, peak =>
     if got < len then
-      let chunk := if len - got < recvChunk then len - got else recvChunk
+      let step := if got < recvChunk then recvChunk else got
+      let chunk := if len - got < step then len - got else step
       let peak := max peak (got + chunk)
       if avail < got + chunk then (false, peak)
       else readPayload fuel len (got + chunk) avail peak
